@@ -115,7 +115,8 @@ pub fn one_case(kind: &str, si: &gen::SchemaInfo, input: &J, out: &mut Out) {
         }
         "validate" | "purity" => crate::valcases::validate_case(si, input.as_str().unwrap(), &tmpdir(), out),
         "c03" => crate::valcases::termination_case(si, input.as_str().unwrap(), &tmpdir(), "replay", out),
-        "c04" | "c10" | "c09" | "c11" | "c06" | "c07" | "c08" | "c05" => crate::valcases::rules_case(si, input.as_str().unwrap(), &crate::valcases::RULES, &tmpdir(), out),
+        "c05" => crate::valcases::merge_case(si, input.as_str().unwrap(), &tmpdir(), json!({"family": "replay", "group": 0}), out),
+        "c04" | "c10" | "c09" | "c11" | "c06" | "c07" | "c08" => crate::valcases::rules_case(si, input.as_str().unwrap(), &crate::valcases::RULES, &tmpdir(), out),
         "ext" => {
             let mut rng = Rng::new(crate::env_seed());
             crate::extcases::schema_cases(si, false, &mut rng, out);
@@ -315,6 +316,82 @@ pub fn generate(kind: &str, thorough: bool, seed: u64, corpus: &str, out: &mut O
                 for t in random_docs(&si, &mut rng, 40 * scale, 7) { crate::valcases::termination_case(&si, &t, &tmp, "random", out); }
                 let noisy = random_docs(&si, &mut rng, 20 * scale, 9);
                 for t in noisy { crate::valcases::termination_case(&si, &t, &tmp, "random-large", out); }
+            }
+        }
+        "c05" => {
+            let tmp = tmpdir();
+            let sdl = format!("{}\ninput In {{ a: Int  b: Int }}\ninterface Pet {{ name: String  nick: String  owner: Human }}\ntype Dog implements Pet {{ name: String  nick: String  barks: Boolean  owner: Human  n: Int  l: [Int]  m: Int! }}\ntype Cat implements Pet {{ name: String  nick: String  meows: Boolean  owner: Human  n: String  l: [Int!]  m: Int }}\nunion CatOrDog = Cat | Dog\ntype Human {{ name: String  f(x: Int, y: [Int], o: In): Int  list: [Int]  nn: Int!  self: Human  pet: Pet  dog: Dog  cd: CatOrDog }}\ntype Query {{ human: Human  pet: Pet  dog: Dog  cat: Cat  cd: CatOrDog }}\n", schemas::PRELUDE);
+            let si = gen::SchemaInfo::new("merge", &sdl);
+            out.schema(&si);
+            let mut group = 0usize;
+            let mut emit = |t: String, family: &str, group: usize, out: &mut Out| {
+                crate::valcases::merge_case(&si, &t, &tmp, json!({"family": family, "group": group}), out);
+            };
+            // ---- pairs of same-key fields on Human
+            let hv = ["k: name", "k: f", "k: f(x: 1)", "k: f(x: 2)", "k: f(x: $v)", "k: f(y: [1])", "k: f(y: [1, 2])", "k: f(o: {a: 1})", "k: f(o: {b: 1})", "k: f(o: {a: 1, b: 2})",
+                      "k: f(x: 1, y: [1])", "k: f(y: [1], x: 1)", "k: list", "k: nn", "k: self { name }", "k: self { name: nn }", "k: self { name self { name } }", "k: self { name self { name: list } }", "k: pet { name }", "k: dog { name }", "k: dog { name: barks }"];
+            // placements of (A, B) in one selection set on Human; `{0}` = A, `{1}` = B; fragments follow
+            let placements: Vec<(&str, &str)> = vec![
+                ("{A} {B}", ""), ("{B} {A}", ""),
+                ("{A} ... on Human { {B} }", ""), ("... on Human { {A} } ... { {B} }", ""), ("... @skip(if: true) { ... on Human { {A} } } {B}", ""),
+                ("{A} ...FB", "fragment FB on Human { {B} }"), ("...FB {A}", "fragment FB on Human { {B} }"),
+                ("...FA ...FB", "fragment FA on Human { {A} } fragment FB on Human { {B} }"), ("...FB ...FA", "fragment FB on Human { {B} } fragment FA on Human { {A} }"),
+                ("...FA ...G", "fragment FA on Human { {A} } fragment G on Human { name ...FB } fragment FB on Human { {B} }"),
+                ("...G1 ...G2", "fragment G1 on Human { ...FA } fragment G2 on Human { ...FA ...FB } fragment FA on Human { {A} } fragment FB on Human { {B} }"),
+                ("...G2 ...G1", "fragment FB on Human { {B} } fragment FA on Human { {A} } fragment G2 on Human { ...FB ...FA } fragment G1 on Human { ...FA }"),
+            ];
+            // where the selection set sits
+            let contexts: Vec<&str> = vec![
+                "{ human { {S} } } {F}", "{ human { self { self { {S} } } } } {F}", "{ human { self { self { self { {S} } } } } } {F}",
+                "{ ... on Query { human { ... on Human { {S} } } } } {F}",
+            ];
+            let mut idx = 0usize;
+            for (ia, a) in hv.iter().enumerate() { for (ib, b) in hv.iter().enumerate() {
+                if ib < ia { continue; }
+                group += 1;
+                for (ip, (pl, frs)) in placements.iter().enumerate() {
+                    let ctx = contexts[if thorough { idx % contexts.len() } else { 0 }];
+                    idx += 1;
+                    if !thorough && ip >= 2 && (ia + ib + ip) % 3 != 0 { continue; }
+                    let s = pl.replace("{A}", a).replace("{B}", b);
+                    let f = frs.replace("{A}", a).replace("{B}", b);
+                    emit(format!("query ($v: Int) {}", ctx.replace("{S}", &s).replace("{F}", &f)), "human-pair", group, out);
+                }
+                // split across same-key parents (merged through the parents), 1..3 levels up
+                for (ip, t) in [format!("{{ human {{ {} }} human {{ {} }} }}", a, b), format!("{{ human {{ self {{ {} }} }} human {{ self {{ {} }} }} }}", a, b),
+                          format!("{{ human {{ self {{ {} }} ...F }} }} fragment F on Human {{ self {{ {} }} }}", a, b),
+                          format!("{{ human {{ ...F ...G }} }} fragment F on Human {{ self {{ self {{ {} }} }} }} fragment G on Human {{ self {{ self {{ {} }} }} }}", a, b),
+                          format!("{{ human {{ x: self {{ {} }} }} human {{ x: dog {{ name }} x: self {{ {} }} }} }}", a, b)].iter().enumerate() {
+                    if !thorough && (ia + ib + ip) % 2 != 0 { continue; }
+                    emit(format!("query ($v: Int) {}", t), "human-split", group, out);
+                }
+            } }
+            // ---- pairs under abstract parents: fields of Dog vs Cat (mutually exclusive parents: only the shapes matter)
+            let dv = ["k: name", "k: nick", "k: n", "k: l", "k: m", "k: barks", "k: owner { name }", "k: owner { name: nn }", "k: owner { name: list }", "k: owner { k: self { name } }"];
+            let cv = ["k: name", "k: nick", "k: n", "k: l", "k: m", "k: meows", "k: owner { name }", "k: owner { name: nn }", "k: owner { name: f }", "k: owner { k: self { name: nn } }"];
+            for a in dv.iter() { for b in cv.iter() {
+                group += 1;
+                for t in [format!("{{ pet {{ ... on Dog {{ {} }} ... on Cat {{ {} }} }} }}", a, b), format!("{{ pet {{ ... on Cat {{ {} }} ... on Dog {{ {} }} }} }}", b, a),
+                          format!("{{ cd {{ ...D ...C }} }} fragment D on Dog {{ {} }} fragment C on Cat {{ {} }}", a, b),
+                          format!("{{ pet {{ ... on Dog {{ {} }} ... on Pet {{ {} }} }} }}", a, b.replace("meows", "name").replace("k: n", "k: nick").replace("k: l", "k: nick").replace("k: m", "k: nick")),
+                          format!("{{ human {{ pet {{ ... on Dog {{ {} }} }} pet {{ ... on Cat {{ {} }} }} }} }}", a, b),
+                          format!("{{ dog {{ {} }} dog: cat {{ {} }} }}", a, b)] {
+                    emit(t, "abstract-pair", group, out);
+                }
+            } }
+            // ---- the recorded witnesses of F15 (a) and (b), and near misses
+            for t in ["{ human { g: self { nn } g: self { ...F2 } t: self { x: name } t: self { ...F2 } } } fragment F2 on Human { ...F3 } fragment F3 on Human { x: nn }",
+                      "{ human { t: self { x: name } t: self { ...F2 } } } fragment F2 on Human { ...F3 } fragment F3 on Human { x: nn }",
+                      "{ human { t: self { x: name ...A ...F } } } fragment A on Human { ...G1 } fragment F on Human { ...G1 ...G2 } fragment G1 on Human { nn } fragment G2 on Human { x: nn }",
+                      "{ human { t: self { x: name ...A ...F } } } fragment A on Human { ...G1 } fragment F on Human { ...G2 ...G1 } fragment G1 on Human { nn } fragment G2 on Human { x: nn }"] {
+                group += 1;
+                emit(t.to_string(), "f15-witness", group, out);
+            }
+            // ---- random documents (acyclic ones are judged)
+            for si2 in pool() {
+                out.schema(&si2);
+                for t in corpus_docs(corpus, &si2.name) { crate::valcases::merge_case(&si2, &t, &tmp, json!({"family": "corpus", "group": 0}), out); }
+                for t in random_docs(&si2, &mut rng, 120 * scale, 5) { crate::valcases::merge_case(&si2, &t, &tmp, json!({"family": "random", "group": 0}), out); }
             }
         }
         "c06" => {
